@@ -730,7 +730,7 @@ class PathCtx(object):
             if z3.is_array(term):
                 ln = self.inputs.get(name + '#len')
                 n = m.eval(ln, model_completion=True).as_long() if ln is not None else 0
-                n = max(0, min(n, 4096))
+                n = max(0, min(n, 200000))
                 vals = []
                 for i in range(n):
                     v = m.eval(z3.Select(term, i), model_completion=True)
